@@ -103,7 +103,7 @@ class SetupRiemannProblem(object):
     
     def setup_initial_arrays(self, state, num=10000):
         ps_comp = linspace(state[0], 10. * state[0], num)
-        ps_exp = linspace(1.e-10, state[0], num)[:-1]
+        ps_exp = linspace(1.e-10 * state[0], state[0], num)[:-1]
         ds, rs, Ms = self.compression_states(ps_comp, state)
         compression_array = self.test_for_nans(ps_comp, ds, rs, Ms)
         ps_comp, ds_comp, rs_comp, Ms_comp = \
@@ -233,8 +233,8 @@ class SetupRiemannProblem(object):
                               0.*xs + sieB, 0.*xs + MB, 0.*xs + uB,
                               0.*xs + vB]).transpose()
         angles = self.angles
-        p_low = pB - 1.e-5
-        p_high = p_star + 1.e-5
+        p_low = pB * (1. - 1.e-5)
+        p_high = p_star * (1. + 1.e-5)
         for ii, vals in enumerate(lineout_vals):
             if (self.morphology[0] == 'R'):
                 if (angles['BR'][0]<vals[2]<angles['BR'][1]):
